@@ -228,8 +228,15 @@ func drawOps(t *rapid.T, maxW, maxH int, withResize bool) []op {
 	n := rapid.IntRange(1, 45).Draw(t, "nops")
 	var ops []op
 	for i := 0; i < n; i++ {
-		k := rapid.IntRange(0, 35).Draw(t, "op")
+		k := rapid.IntRange(0, 36).Draw(t, "op")
 		switch {
+		case k == 36 && withResize && maxW > 2:
+			// the cursor is asked for at a cell the window does not have yet;
+			// when the window has grown it is shown there
+			sw := rapid.IntRange(1, maxW-1).Draw(t, "growfrom")
+			ops = append(ops, op{Kind: "resize", W: sw, H: maxH, Quiet: true},
+				op{Kind: "cursor", X: rapid.IntRange(sw, maxW-1).Draw(t, "growcx"), Y: rapid.IntRange(0, maxH-1).Draw(t, "growcy")},
+				op{Kind: "resize", W: maxW, H: maxH, Quiet: true}, op{Kind: "show"})
 		case k >= 34:
 			// store again exactly what the cell already holds
 			ops = append(ops, op{Kind: "reset-same", X: rapid.IntRange(0, maxW-1).Draw(t, "sx"), Y: rapid.IntRange(0, maxH-1).Draw(t, "sy")})
